@@ -858,14 +858,27 @@ class Interp:
                         cache[key] = None
                 if cache[key] is not None:
                     return cache[key]
-            if isinstance(gv, ast.Call) and isinstance(gv.func, ast.Name) and not gv.keywords:
-                # a module-level record of constants: ``SHAPE = Shape(PREFIX, ":")``
+            if isinstance(gv, ast.Call) and isinstance(gv.func, ast.Name):
+                # a module-level record of constants: ``SHAPE = Shape(PREFIX, ":")``, ``OUTSIDE = State()`` (defaults)
                 rc = self.facts.resolve_name(r[1], gv.func.id)
                 if rc is not None and rc[0] == "class" and rc[1].is_namedtuple and rc[1].find_method("__new__") is None \
-                        and len(gv.args) == len(rc[1].nt_fields()):
+                        and len(gv.args) <= len(rc[1].nt_fields()) and all(k.arg is not None for k in gv.keywords):
                     try:
-                        vals = tuple(self._value_term(self._const_global(r[1], a)) for a in gv.args)
-                        t = ("tuple", vals)
+                        names = rc[1].nt_fields()
+                        given = dict(zip(names, [self._value_term(self._const_global(r[1], a)) for a in gv.args]))
+                        for k in gv.keywords:
+                            given[k.arg] = self._value_term(self._const_global(r[1], k.value))
+                        vals = []
+                        for nm in names:
+                            if nm in given:
+                                vals.append(given[nm])
+                                continue
+                            ca = rc[1].find_class_attr(nm)
+                            dv = self._eval_class_attr(ca[0], nm, ca[1]) if ca is not None else None
+                            if dv is None:
+                                raise ValueError
+                            vals.append(dv)
+                        t = ("tuple", tuple(vals))
                         self.types[t] = rc[1]
                         return t
                     except ValueError:
@@ -1759,6 +1772,16 @@ class Interp:
             pre = self._prelude_for(nm, args, kwargs)
             if pre is not None:
                 return self.call_function(st, self.facts.prelude().functions[pre[0]], pre[1], {}, n, tree)
+            if nm == "dataclasses.replace" and len(args) == 1 and args[0][0] == "tuple" and args[0] in self.types and self.types[args[0]].is_namedtuple:
+                cls_ = self.types[args[0]]
+                names_ = cls_.nt_fields()
+                vals_ = list(args[0][1])
+                if all(k in names_ for k in kwargs):
+                    for k, v in kwargs.items():
+                        vals_[names_.index(k)] = v
+                    t_ = ("tuple", tuple(vals_))
+                    self.types[t_] = cls_
+                    return t_
             if nm == "itertools.chain" and not kwargs:
                 r_ = self.new_list([("s", a) for a in args], n, tree)
                 self.obj(r_).one_shot = "itertools.chain"       # its elements in order - but they can be walked only once
@@ -2635,6 +2658,12 @@ class Interp:
             st.env[tgt.id] = v
         elif isinstance(tgt, ast.Attribute):
             base = self.ev(st, tgt.value, tree)
+            bc = self.type_of(base)
+            setter = next((c_.setters[tgt.attr] for c_ in bc.mro() if tgt.attr in c_.setters), None) if bc is not None else None
+            if setter is not None:
+                # a property with a setter: assigning it runs the setter
+                self.call_function(st, setter, [base, v], {}, tgt, tree)
+                return
             st.ext[(base, tgt.attr)] = v
             tree.append(("setattr", base, tgt.attr, v, line))
         elif isinstance(tgt, ast.Subscript):
